@@ -49,3 +49,52 @@ pub fn run(path: &str) -> Result<usize, String> {
     }
     Ok(n)
 }
+
+/// Validates the harness's RFC 8554 reference model against the published
+/// known-answer vectors (RFC 8554 appendix F and the SP 800-208 parameter-set
+/// draft), stored in vectors/lms_kat.json.
+pub fn run_lms(path: &str) -> Result<usize, String> {
+    use crate::refimpl::lms as rl;
+    use crate::util::unhex;
+    let s = std::fs::read_to_string(path).map_err(|e| format!("{}: {}", path, e))?;
+    let j = J::parse(&s)?;
+    let arr = j.as_arr().ok_or("not an array")?;
+    let mut n = 0;
+    for v in arr {
+        let gs = |k: &str| v.get(k).and_then(|x| x.as_str()).ok_or(format!("missing {}", k));
+        let set = gs("set")?;
+        let prm = match set {
+            "LMS_SHA256_M32_H5_SHA256_N32_W8" => rl::SHA256_M32_H5,
+            "LMS_SHA256_M24_H5_SHA256_N24_W8" => rl::SHA256_M24_H5,
+            "LMS_SHAKE_M32_H5_SHAKE_N32_W8" => rl::SHAKE_M32_H5,
+            "LMS_SHAKE_M24_H5_SHAKE_N24_W8" => rl::SHAKE_M24_H5,
+            o => return Err(format!("unknown set {}", o)),
+        };
+        let tape = unhex(gs("rng_tape")?).ok_or("hex")?;
+        let (id, rest) = tape.split_at(16);
+        let (seed, c) = rest.split_at(prm.m);
+        let key = rl::RefKey::generate(prm, id, seed);
+        if hex(key.root()) != gs("pk_T1")? || hex(id) != gs("pk_I")? {
+            return Err(format!("{}: reference root {} != KAT {}", set, hex(key.root()), gs("pk_T1")?));
+        }
+        let msg = unhex(gs("msg")?).ok_or("hex")?;
+        let leaf = v.get("leaf").and_then(|x| x.as_u64()).ok_or("leaf")? as u32;
+        let sig = key.sign(leaf, c, &msg);
+        if hex(&sig) != gs("sig")? {
+            return Err(format!("{}: reference signature differs from the KAT", set));
+        }
+        if !rl::verify(&prm, id, key.root(), &msg, &sig) {
+            return Err(format!("{}: reference verify rejects the KAT signature", set));
+        }
+        let mut bad = sig.clone();
+        bad[40] ^= 1;
+        if rl::verify(&prm, id, key.root(), &msg, &bad) || rl::verify(&prm, id, key.root(), &msg[1..], &sig) {
+            return Err(format!("{}: reference verify accepts an altered signature/message", set));
+        }
+        n += 1;
+    }
+    if n != 4 {
+        return Err(format!("{} LMS KATs, expected 4", n));
+    }
+    Ok(n)
+}
